@@ -16,7 +16,7 @@ RULE = ("tracked graphs of seeded programs (as C18, always with list ops cat/sta
         "prune_selected_nodes (random target sets). Oracle: an independent model (networkx) of the documented removal sets with a "
         "three-valued expected set (don't-care where the statement leaves the verdict open), lint + dangling-edge scan, reachability "
         "of surviving consumers from the nearest surviving producer, and a before/after structural snapshot of the input graph. "
-        "Non-trivial = at least one node is expected to be removed; distinct = (emitted source, helper, rtol / target set).")
+        "Non-trivial = at least one node is expected to be removed; distinct = (emitted source, helper, rtol / target set). Programs contain non-float nodes that cannot be bypassed (a mask from two float tensors) and an index computed from a float tensor handed over by keyword.")
 ASSUMPTIONS = ["node.meta written by track_scales (outputs_float_tensor, metrics) is as established by C18"]
 IMPORTS = ["unit_scaling.transforms._track_scales", "unit_scaling.transforms"]
 REQUIRED_MONITORS = ["graphs:tracked", "prune:non-float-calls", "prune:same-scale-calls", "prune:selected-calls", "removed:compared-with-model",
